@@ -30,6 +30,8 @@ G = {
     "diamond4": (4, [[0, 1], [0, 2], [1, 3], [2, 3]]),
     "fanin4": (4, [[0, 3], [1, 3], [2, 3]]),
     "zipper4": (4, [[0, 2], [1, 2], [1, 3]]),
+    # two joins in a row: a node enqueued twice by a lost update on the first join's counter releases the second join early
+    "dbljoin5": (5, [[0, 2], [1, 2], [2, 4], [3, 4]]),
 }
 
 
@@ -58,6 +60,12 @@ def catalog(pid, tier):
     ]
     cyc = [inst("cyc_sym2_w1", None, 1, 20, opts={"cyclic": True}, witnesses=("cycle_rejected", "all_ran"), sym=True, N=2),
            inst("cyc_sym3_w2", None, 2, 30, opts={"cyclic": True}, witnesses=("cycle_rejected",), sym=True, N=3)]
+    if pid == "C01":
+        # the smallest graph on which a double enqueue becomes an ORDERING violation needs 5 nodes; restricted to runs without failures
+        # (the property does not involve them) to keep it in the quick budget
+        five = inst("dbljoin5_w2_allok", "dbljoin5", 2, 44, opts={"all_ok": True}, witnesses=("all_ran",))
+        q = q + [five]
+        t = t + [five, inst("dbljoin5_w2", "dbljoin5", 2, 48)]
     if pid == "C07":
         q = q + cyc[:1]
         t = t + cyc
